@@ -187,6 +187,12 @@ func DecodeClaimsFromCBOR(buf []byte) (IClaims, error) {
 		return nil, err
 	}
 
+	// CBOR null and undefined decode into a struct without error, but a
+	// claims-set is a map.
+	if !isCBORMap(buf) {
+		return nil, errors.New("claims-set is not a CBOR map")
+	}
+
 	entry, ok := profilesRegister[selector.Profile]
 	if !ok {
 		return nil, fmt.Errorf("unknown profile: %q", selector.Profile)
@@ -199,6 +205,31 @@ func DecodeClaimsFromCBOR(buf []byte) (IClaims, error) {
 	}
 
 	return claims, nil
+}
+
+// isCBORMap reports whether the well-formed (and possibly tagged) CBOR data
+// item in buf is a map.
+func isCBORMap(buf []byte) bool {
+	for len(buf) > 0 {
+		majorType, additionalInfo := buf[0]>>5, buf[0]&0x1f
+		if majorType != 6 {
+			return majorType == 5
+		}
+
+		// skip the tag number
+		skip := 1
+		if additionalInfo >= 24 {
+			skip += 1 << (additionalInfo - 24)
+		}
+
+		if additionalInfo > 27 || len(buf) < skip {
+			return false
+		}
+
+		buf = buf[skip:]
+	}
+
+	return false
 }
 
 // Deprecated: use DecodeAndValidateClaimsFromJSON instead.
